@@ -270,11 +270,13 @@ def json_decoder(obj_dict: dict[str, Any]) -> dict[str, Any] | Object | Alias | 
         An instance of a data class.
     """
     # Load expressions.
-    if "cls" in obj_dict:
+    # (The values are checked to be strings: a `members` dictionary
+    # can have members named `cls` or `kind`, already decoded as objects.)
+    if isinstance(obj_dict.get("cls"), str):
         return _load_expression(obj_dict)
 
     # Load objects and parameters.
-    if "kind" in obj_dict:
+    if isinstance(obj_dict.get("kind"), str):
         try:
             kind = Kind(obj_dict["kind"])
         except ValueError:
